@@ -178,6 +178,21 @@ CMP_METHODS = {
 }
 
 
+CHECKED_ARITH = {"checked_add": "Add", "checked_sub": "Sub", "checked_mul": "Mul"}
+
+
+def arith_args(e, op):
+    """operands of e when it is the binary operation `op` (Add/Sub/Mul), in operator form or as the library's checked_<op>(a, b)
+    (the Ok payload; the Err case aborts the transaction just as the operator's overflow panic does)"""
+    if e is None:
+        return None
+    if e.op == "bin" and e.info == op and len(e.args) == 2:
+        return e.args
+    if e.op == "call" and len(e.args) == 2 and isinstance(e.info, str) and CHECKED_ARITH.get(e.info.rsplit("::", 1)[-1]) == op:
+        return e.args
+    return None
+
+
 def callee_key(c):
     """canonical name used by the model tables: trait path + method for trait calls,
     stripped def path otherwise"""
